@@ -2,12 +2,15 @@ package props
 
 import (
 	"fmt"
+	"sort"
 	"testing"
 	"time"
 
+	c4eapp "github.com/chain4energy/c4e-chain/app"
 	distrtypes "github.com/chain4energy/c4e-chain/x/cfedistributor/types"
 	cfeminter "github.com/chain4energy/c4e-chain/x/cfeminter"
 	mintertypes "github.com/chain4energy/c4e-chain/x/cfeminter/types"
+	cfevesting "github.com/chain4energy/c4e-chain/x/cfevesting"
 	vestingtypes "github.com/chain4energy/c4e-chain/x/cfevesting/types"
 	sdk "github.com/cosmos/cosmos-sdk/types"
 	"pgregory.net/rapid"
@@ -34,7 +37,33 @@ func (c *c13) paramsJSON() [3]string {
 	mp := app.CfeminterKeeper.GetParams(ctx)
 	dp := app.CfedistributorKeeper.GetParams(ctx)
 	vp := app.CfevestingKeeper.GetParams(ctx)
-	return [3]string{string(app.AppCodec().MustMarshalJSON(&mp)), string(app.AppCodec().MustMarshalJSON(&dp)), string(app.AppCodec().MustMarshalJSON(&vp))}
+	return [3]string{minterParamsJSON(app, mp), string(app.AppCodec().MustMarshalJSON(&dp)), string(app.AppCodec().MustMarshalJSON(&vp))}
+}
+
+// minterParamsJSON renders minter parameters with the minters in ascending sequence id order: the
+// order in which a configuration lists its periods carries no meaning (the schedule is defined by
+// the sequence ids), so the comparison of stored and expected parameters ignores it.
+func minterParamsJSON(app *c4eapp.App, mp mintertypes.Params) string {
+	ms := append([]*mintertypes.Minter(nil), mp.Minters...)
+	sort.SliceStable(ms, func(i, j int) bool {
+		if ms[i] == nil || ms[j] == nil {
+			return ms[i] == nil && ms[j] != nil
+		}
+		return ms[i].SequenceId < ms[j].SequenceId
+	})
+	mp.Minters = ms
+	return string(app.AppCodec().MustMarshalJSON(&mp))
+}
+
+func permuteMinters(ms []*mintertypes.Minter, ord []int) []*mintertypes.Minter {
+	if len(ord) != len(ms) {
+		return ms
+	}
+	out := make([]*mintertypes.Minter, len(ms))
+	for i, o := range ord {
+		out[i] = ms[o]
+	}
+	return out
 }
 
 func (c *c13) invariants(what string) {
@@ -71,7 +100,12 @@ var c13Authorities = func() []string {
 // JSON triple the parameters must have if the message is accepted.
 func (c *c13) apply(msg sdk.Msg, authority string, what string, partial bool, expect func(before [3]string) [3]string) bool {
 	before := c.paramsJSON()
-	poolsExist := len(c.v.App.CfevestingKeeper.GetAllAccountVestingPools(c.v.Ctx)) > 0
+	poolsExist := false
+	for _, avp := range c.v.App.CfevestingKeeper.GetAllAccountVestingPools(c.v.Ctx) {
+		if len(avp.VestingPools) > 0 {
+			poolsExist = true
+		}
+	}
 	res := RunMsg(c.v.App, c.v.Ctx, msg)
 	after := c.paramsJSON()
 	c.note("%s authority=%q -> ok=%v err=%v", what, authority, res.OK(), errStr(res))
@@ -188,6 +222,19 @@ func TestC13(t *testing.T) {
 			dcfg = cfgFromParams(app.CfedistributorKeeper.GetParams(c.v.Ctx))
 		}
 		c.note("init minter=%s distributor=%s", jsonStr(mcfg), jsonStr(dcfg))
+		// the chain may have been started from a genesis that lists owners without any pool (a
+		// configuration the genesis validation accepts)
+		if rapid.IntRange(0, 2).Draw(t, "poollessOwners") == 0 {
+			gs := cfevesting.ExportGenesis(c.v.Ctx, app.CfevestingKeeper)
+			for _, i := range rapid.SliceOfNDistinct(rapid.IntRange(0, 6), 1, 3, rapid.ID[int]).Draw(t, "poollessOwnerIdx") {
+				gs.AccountVestingPools = append(gs.AccountVestingPools, &vestingtypes.AccountVestingPools{Owner: KeyAcc(i).Addr.String()})
+			}
+			if err := gs.Validate(); err == nil {
+				cfevesting.InitGenesis(c.v.Ctx, app.CfevestingKeeper, *gs, app.AccountKeeper, app.BankKeeper, app.StakingKeeper)
+				c.classes["genesis_owner_records_without_pools"] = true
+				c.note("genesis lists %d owners without pools", len(gs.AccountVestingPools))
+			}
+		}
 		c.invariants("initial")
 
 		auth := func() string {
@@ -210,8 +257,9 @@ func TestC13(t *testing.T) {
 				c.invariants("block")
 			},
 			"create_pool": func(t *rapid.T) {
-				res := c.v.Run(&vestingtypes.MsgCreateVestingPool{Owner: KeyAcc(1).Addr.String(), Name: fmt.Sprintf("p%d", rapid.IntRange(0, 2).Draw(t, "n")), Amount: sdk.NewInt(10), Duration: time.Hour, VestingType: "vt0"})
-				c.note("create pool ok=%v", res.OK())
+				owner := KeyAcc(rapid.IntRange(0, 6).Draw(t, "owner"))
+				res := c.v.Run(&vestingtypes.MsgCreateVestingPool{Owner: owner.Addr.String(), Name: fmt.Sprintf("p%d", rapid.IntRange(0, 2).Draw(t, "n")), Amount: sdk.NewInt(10), Duration: time.Hour, VestingType: "vt0"})
+				c.note("create pool owner=%s ok=%v", owner.Addr, res.OK())
 			},
 			"minter_update": func(t *rapid.T) {
 				cur := app.CfeminterKeeper.GetMinterState(c.v.Ctx).SequenceId
@@ -223,7 +271,12 @@ func TestC13(t *testing.T) {
 				}
 				n.FirstID = uint32(rapid.Int64Range(lowest, int64(cur)+2).Draw(t, "firstId"))
 				n.Denom = []string{Denom, "uatom", "", "x"}[rapid.IntRange(0, 5).Draw(t, "denom")%4]
+				// mutations address periods by schedule position, so they are applied to the ordered
+				// list; the drawn list order is applied afterwards
+				ord := n.Order
+				n.Order = nil
 				p, _ := n.Build()
+				n.Order = ord
 				mut := "valid"
 				if rapid.IntRange(0, 2).Draw(t, "mutate") == 0 {
 					nBefore := len(p.Minters)
@@ -233,6 +286,10 @@ func TestC13(t *testing.T) {
 						c.mustReject = mut
 					}
 				}
+				p.Minters = permuteMinters(p.Minters, ord)
+				if n.Unordered() {
+					c.classes["minters_listed_out_of_order"] = true
+				}
 				a := auth()
 				if rapid.Bool().Draw(t, "full") {
 					if n.Denom == "" || n.Denom == "x" {
@@ -241,7 +298,7 @@ func TestC13(t *testing.T) {
 					msg := &mintertypes.MsgUpdateParams{Authority: a, MintDenom: p.MintDenom, StartTime: p.StartTime, Minters: p.Minters}
 					c.apply(msg, a, "minter MsgUpdateParams("+mut+") "+jsonStr(n), false, func(b [3]string) [3]string {
 						np := mintertypes.Params{MintDenom: p.MintDenom, StartTime: p.StartTime, Minters: p.Minters}
-						b[0] = string(app.AppCodec().MustMarshalJSON(&np))
+						b[0] = minterParamsJSON(app, np)
 						return b
 					})
 				} else {
@@ -249,7 +306,7 @@ func TestC13(t *testing.T) {
 					msg := &mintertypes.MsgUpdateMintersParams{Authority: a, StartTime: p.StartTime, Minters: p.Minters}
 					c.apply(msg, a, "minter MsgUpdateMintersParams("+mut+") "+jsonStr(n), true, func(b [3]string) [3]string {
 						np := mintertypes.Params{MintDenom: oldDenom, StartTime: p.StartTime, Minters: p.Minters}
-						b[0] = string(app.AppCodec().MustMarshalJSON(&np))
+						b[0] = minterParamsJSON(app, np)
 						return b
 					})
 				}
